@@ -51,15 +51,18 @@ def rule_worker_rng(ctx, rid):
                 P.func('emd.sift.get_next_imf_mask')]
     nsites = 0
     for fi in variants:
-        ds = pools.dispatch_sites(P, fi)
+        # pool dispatches observed while evaluating the variant (helpers and nested functions are inlined, so
+        # a dispatch that moved into one is still seen, with the bindings of the calling context)
+        sites, nexits, _ev = collect_sites(P, fi, context={'noise_mode': 'single'})
+        ds = sorted([s for s in sites.values() if s.kind == 'starmap'],
+                    key=lambda s: (s.node.lineno, s.node.col_offset))
         order = {}
-        for call, meth, ca in ds:
+        for s in ds:
+            call, meth, w = s.node, s.meth, P.funcs[s.callee]
             nsites += 1
-            w = ca.func
             order[w.name] = order.get(w.name, 0) + 1
             tagname = '%s(%s)#%d' % (meth, w.name, order[w.name])
-            s = _bound_for_site(P, fi, call)
-            if s is None or not s.states:
+            if not s.states:
                 ctx.undecided(rid, fi, '%s: worker binding' % tagname, 'cannot bind the dispatch tuple', node=call)
                 continue
             ctx.call_sites += 1
@@ -232,24 +235,51 @@ def rule_member_mean(ctx, rid):
         ctx.undecided(rid, fi, c, 'no per-column reduction over the member results found')
     else:
         ctx.passed(rid, fi, c, '%d reduction states' % found)
-    # complete ensemble: mean over members of the whole member result
+    # complete ensemble: mean over members of the whole member result (read from the evaluated terms, so the
+    # reduction may sit in a helper or a nested function)
     fi2 = P.func('emd.sift.complete_ensemble_sift')
-    n = 0
-    bad2 = None
-    for a in walk_local(fi2.node):
-        if isinstance(a, ast.Assign) and isinstance(a.value, ast.Call) and isinstance(a.value.func, ast.Attribute) \
-                and a.value.func.attr in ('mean', 'sum', 'median') and isinstance(a.value.func.value, ast.Call):
-            inner = a.value.func.value
-            d = P.resolve(fi2.module, inner.func, fi2)
-            if d == 'numpy.array' and inner.args and isinstance(inner.args[0], ast.ListComp) \
-                    and isinstance(inner.args[0].elt, ast.Name):
-                n += 1
-                ax = [k.value for k in a.value.keywords if k.arg == 'axis']
-                if a.value.func.attr != 'mean' or not ax or not (isinstance(ax[0], ast.Constant) and ax[0].value == 0):
-                    bad2 = a
+    seen = {}
+
+    def unwrap(t):
+        # np.array(x) / np.asarray / np.stack(x) / [r for r in x]  ->  x
+        while True:
+            if t[0] == 'call' and t[1] in ('numpy.array', 'numpy.asarray', 'numpy.stack') and t[2] \
+                    and dict(t[3]).get('axis', C(0)) == C(0):
+                t = t[2][0]
+            elif t[0] == 'comp' and len(t[3]) == 1 and not t[3][0][2] and t[2] == t[3][0][0]:
+                t = t[3][0][1]
+            else:
+                return t
+
+    def is_members(t):
+        if t[0] == 'meth' and t[1] in ('starmap', 'map') and t[3]:
+            d = _decode_fref(P, t[3][0])
+            return d is not None and d[0] == WORKER
+        return False
+    REDS = ('mean', 'sum', 'median', 'max', 'min', 'average', 'nanmean', 'nansum', 'nanmedian', 'prod', 'std', 'var')
+
+    def obs(node, term, st):
+        if term[0] == 'meth' and term[1] in REDS:
+            red, arr, args, kw = term[1], term[2], term[3], dict(term[4])
+        elif term[0] == 'call' and term[1].startswith('numpy.') and term[1].split('.')[-1] in REDS and term[2]:
+            red, arr, args, kw = term[1].split('.')[-1], term[2][0], term[2][1:], dict(term[3])
+        else:
+            return
+        if not is_members(unwrap(arr)):
+            return
+        ax = kw.get('axis', args[0] if args else None)
+        ok = red in ('mean', 'average') and ax == C(0) and 'weights' not in kw
+        seen.setdefault(id(node), (node, ok, term))
+        if not ok:
+            seen[id(node)] = (node, ok, term)
+    exits2 = Evaluator(P, observer=obs).run(fi2, context={'noise_mode': 'single'})
+    ctx.paths += len(exits2)
+    n = len(seen)
+    bad2 = [x for x in seen.values() if not x[1]]
     c = 'complete ensemble: layer component == mean over members (axis 0 of the stacked member results)'
-    if bad2 is not None:
-        ctx.violation(rid, fi2, c, 'member results are reduced by `%s`' % unparse(bad2.value)[:80], node=bad2)
+    if bad2:
+        ctx.violation(rid, fi2, c, 'member results are reduced by `%s`' % show(bad2[0][2])[:80].replace(show(unwrap(
+            bad2[0][2][2] if bad2[0][2][0] == 'meth' else bad2[0][2][2][0])), '<members>'), node=bad2[0][0])
     elif n == 0:
         ctx.undecided(rid, fi2, c, 'no reduction over stacked member results found')
     else:
@@ -257,15 +287,26 @@ def rule_member_mean(ctx, rid):
 
 
 def _is_member_mean(val, var):
-    """np.array([r[:, i] for r in res]).mean(axis=0) with the same column index i."""
-    if not (val[0] == 'meth' and val[1] == 'mean'):
-        return 'reduction is .%s' % (val[1] if val[0] == 'meth' else show(val)[:40])
-    if dict(val[4]).get('axis') != C(0) and not (val[3] and val[3][0] == C(0)):
+    """np.array([r[:, i] for r in res]).mean(axis=0) / np.mean([r[:, i] for r in res], axis=0) with the same
+    column index i."""
+    if val[0] == 'meth':
+        if val[1] != 'mean':
+            return 'reduction is .%s' % val[1]
+        arr, args, kw = val[2], val[3], dict(val[4])
+    elif val[0] == 'call' and val[1].startswith('numpy.') and val[2]:
+        if val[1] not in ('numpy.mean', 'numpy.average') or 'weights' in dict(val[3]):
+            return 'reduction is %s' % val[1]
+        arr, args, kw = val[2][0], val[2][1:], dict(val[3])
+    else:
+        return 'reduction is %s' % show(val)[:40]
+    if kw.get('axis') != C(0) and not (args and args[0] == C(0)):
         return 'mean is not taken over the member axis (axis=0)'
-    arr = val[2]
-    if not (arr[0] == 'call' and arr[1] == 'numpy.array' and arr[2] and arr[2][0][0] == 'comp'):
+    if arr[0] == 'call' and arr[1] in ('numpy.array', 'numpy.asarray', 'numpy.stack', 'numpy.vstack') and arr[2] \
+            and dict(arr[3]).get('axis', C(0)) == C(0):
+        arr = arr[2][0]
+    if arr[0] != 'comp':
         return 'operand is not the stacked member columns'
-    comp = arr[2][0]
+    comp = arr
     elt = comp[2]
     bv = comp[3][0][0]
     if not (elt[0] == 'sub' and elt[1] == bv and elt[2][0] == 'tuple' and len(elt[2][1]) == 2
@@ -279,11 +320,12 @@ def rule_zero_noise(ctx, rid):
     P = ctx.P
     fi = P.func('emd.sift.ensemble_sift')
     w = P.func(WORKER)
-    ds = [d for d in pools.dispatch_sites(P, fi) if d[2].func is w]
+    sites, nexits, _ev = collect_sites(P, fi, context={'noise_mode': 'single'})
+    ds = [x for x in sites.values() if x.kind == 'starmap' and P.funcs[x.callee] is w]
     if len(ds) != 1:
         ctx.undecided(rid, fi, 'zero noise reduces to the classic sift', 'expected one dispatch of the noise worker')
         return
-    s = _bound_for_site(P, fi, ds[0][0])
+    s = ds[0]
     c1 = 'zero noise level: noise scaling folds to 0 and sift_thresh / max_imfs reach the worker unchanged'
     alg = mk_algebra()
     bad = None
@@ -304,9 +346,9 @@ def rule_zero_noise(ctx, rid):
         if xv is None or alg.poly(xv) != alg.poly(S(fi.params[0])):
             bad = 'worker signal is not the (canonicalised) input'
     if bad:
-        ctx.violation(rid, fi, c1, bad, node=ds[0][0])
+        ctx.violation(rid, fi, c1, bad, node=s.node)
     else:
-        ctx.passed(rid, fi, c1, '%d binding states' % len(s.states), node=ds[0][0])
+        ctx.passed(rid, fi, c1, '%d binding states' % len(s.states), node=s.node)
     # worker with scaling 0, both modes
     for mode in ('single', 'flip'):
         ev = Evaluator(P)
